@@ -4,7 +4,7 @@ from .. import gen as G
 from .common import TRUSTED, ASSUMPTIONS, default_nontrivial, LEVEL_NOTE, TECHNIQUE
 
 LEVEL = "proof"
-THEOREMS = []
+THEOREMS = ['C11_compose', 'C11_refines', 'C11_wf', 'C11_no_error', 'C11_families_agree', 'C11_impossible_cell_vacuous', 'C11_transpose', 'C11_deduce_order', 'C11_example_cell_vacuous']
 RULE = ("merge on pairs of conditional tables x strictly positive base rates, |X1|,|X2| in 2..3, |Y| in 2..3, dyadic grids, including "
         "tables that make a joint value impossible under every y; each case is also run with the parents exchanged and the two "
         "outputs compared after transposition (cross-case check); families A/M (validated product) and D/N; f32+f64")
